@@ -11,7 +11,11 @@
 //    mpt::dispatch constructor/destructor, set_handler, handler, reserve, set_error, set_default.
 //    ids: 0..7, 0x100000003 (low byte and low 32 bits collide with 3), mpt_hash() of a small
 //    vocabulary of command words, ids handed out by reserve, arbitrary first bytes.
-//    Every registration is a fresh harness object (the arg pointer), the fallback (_err) too.
+//    A registration is a pair (handler function, context pointer): 3 distinct handler functions
+//    (fn = registration serial % 3) and context objects that are either fresh or — for the odd ids
+//    1,3,5,7 and the large id — one of 3 pooled objects chosen by the id, so that a replace hands the
+//    *same* context to the same or to another function, while other ids replace with a new context.
+//    End-of-life and delivery are booked per (function, context). The fallback (_err) is a pair too.
 //    What the invoked handler returns (flag combination | error) and whether it rewrites
 //    ev->id is drawn per emit.
 // O: model map id -> registration per table, see the checks (tags) below.
@@ -35,19 +39,29 @@ static const uintptr_t kLargeId = (uintptr_t)0x100000003ull;
 enum { MsgCommand = 0x04 };
 
 // ---- harness objects -------------------------------------------------------------------------
-struct Reg {                 // one registration; never freed before the case ends (tomb-stone)
+enum { NFn = 3, NPool = 3 };
+struct Hctx {                // context object handed to the library as arg; never freed before the case ends (tomb-stone)
+  unsigned serial;
+  bool pooled = false;
+  int live[NFn] = {0, 0, 0};  // registrations (fn, this) the library currently holds
+  int ever[NFn] = {0, 0, 0};  // ... has ever accepted
+  int eol[NFn] = {0, 0, 0};   // end-of-life calls that arrived through fn
+  int calls[NFn] = {0, 0, 0};
+};
+struct Reg {                 // one registration = (handler function fn, context ctx) under an id
   unsigned serial;
   char table;                // 'D', 'W', 'F' (fallback)
   uintptr_t id;
-  int eol = 0, calls = 0;
-  bool dead = false;         // received its end-of-life call, or was released by the harness
+  Hctx *ctx = 0;
+  int fn = 0;
   bool registered = false;   // the library accepted it
   bool released = false;     // slot released by the harness itself (cmd = 0): no end-of-life call is due
 };
 struct Call {
-  Reg *r;
+  Hctx *o;
+  int fn;
   bool eol;
-  bool after_death;
+  bool after_death;          // no registration (fn, o) was live when the call arrived
   uintptr_t id;
   const void *ev;
   const message *msg;
@@ -85,7 +99,9 @@ struct Table {
   bool by_set = false;       // buffer was created by mpt_command_set (typed) rather than by reserve (raw)
 };
 
-static int h_event(void *arg, event *ev);
+typedef int (*raw_handler)(void *, void *);
+static event_handler_t handler_fn(int fn);
+static inline raw_handler handler_raw(int fn) { return (raw_handler)handler_fn(fn); }
 
 struct Exp {
   Reg *r;
@@ -108,6 +124,7 @@ struct World {
   Reg *fb = 0;
   uintptr_t mdef = 0;        // model of dispatch._def
   std::vector<std::unique_ptr<Reg>> regs;
+  std::vector<std::unique_ptr<Hctx>> ctxs;  // the first NPool are the shared ones
   std::vector<Call> log;
   Plan plan;
   CReply reply;
@@ -120,6 +137,7 @@ struct World {
     T[1].name = "W"; T[1].arr = w.get();
     reply.vptr = &kReplyVptr; reply.replies = 0;
     g_w = this;
+    for (int i = 0; i < NPool; i++) newctx()->pooled = true;
     static const char *words[] = {"stop", "cont", "a", "read.file_0"};
     for (const char *s : words) add_word(s);
     add_word(std::string(127, 'y'));
@@ -134,13 +152,33 @@ struct World {
   }
   void add_word(const std::string &s) { vocab.push_back({s, mpt_hash(s.data(), (int)s.size())}); }
 
+  Hctx *newctx() {
+    ctxs.emplace_back(new Hctx);
+    ctxs.back()->serial = (unsigned)ctxs.size();
+    return ctxs.back().get();
+  }
+  // function and context are derived from draws that exist anyway (no draw of their own)
   Reg *newreg(char table, uintptr_t id) {
     regs.emplace_back(new Reg);
     Reg *r = regs.back().get();
     r->serial = (unsigned)regs.size();
     r->table = table;
     r->id = id;
+    r->fn = (int)(r->serial % NFn);
+    bool shared = table != 'F' && ((id < 8 && (id & 1)) || id == kLargeId);
+    r->ctx = shared ? ctxs[(size_t)((id >> 1) % NPool)].get() : newctx();
     return r;
+  }
+  void accept(Reg *r) {      // the library holds the pair now
+    r->registered = true;
+    ++r->ctx->live[r->fn];
+    ++r->ctx->ever[r->fn];
+  }
+  static bool is(const Call &k, const Reg *r) { return r && k.o == r->ctx && k.fn == r->fn; }
+  std::string who(const Reg *r) {
+    char b[96];
+    snprintf(b, sizeof b, "#%u (%c id %#zx: fn%d, %scontext %u)", r->serial, r->table, (size_t)r->id, r->fn, r->ctx->pooled ? "shared " : "", r->ctx->serial);
+    return b;
   }
   command *slots(Table &t, size_t &n) {
     CBuf *b = cbuf(reinterpret_cast<array *>(t.arr));
@@ -158,22 +196,22 @@ struct World {
   void expect(const char *op, std::vector<Exp> exp) {
     std::vector<bool> used(exp.size(), false);
     for (const Call &k : log) {
+      if (k.after_death && k.o->ever[k.fn])
+        c.fail(k.eol ? "eol-twice" : "call-after-eol", "%s: (fn%d, context %u) %s although every registration of that pair had its end of life (eol calls through it: %d)", op, k.fn,
+               k.o->serial, k.eol ? "finalised again" : "invoked", k.o->eol[k.fn]);
       if (k.after_death)
-        c.fail(k.eol ? "eol-twice" : "call-after-eol", "%s: registration #%u (%c id %#zx) %s after its end of life (eol calls %d)", op, k.r->serial, k.r->table,
-               (size_t)k.r->id, k.eol ? "finalised again" : "invoked", k.r->eol);
-      if (!k.r->registered)
-        c.fail("call-unregistered", "%s: object #%u (%c id %#zx) was refused by the library but is called (%s)", op, k.r->serial, k.r->table, (size_t)k.r->id, k.eol ? "eol" : "event");
+        c.fail("call-unregistered", "%s: (fn%d, context %u) was never accepted by the library as a pair but is called (%s)", op, k.fn, k.o->serial, k.eol ? "eol" : "event");
       bool ok = false;
       for (size_t i = 0; i < exp.size(); i++)
-        if (!used[i] && exp[i].r == k.r && exp[i].eol == k.eol) { used[i] = ok = true; break; }
+        if (!used[i] && is(k, exp[i].r) && exp[i].eol == k.eol) { used[i] = ok = true; break; }
       if (!ok)
-        c.fail(k.eol ? "eol-unexpected" : "wrong-handler", "%s: unexpected %s of registration #%u (%c id %#zx), event id %#zx", op, k.eol ? "end-of-life call" : "invocation",
-               k.r->serial, k.r->table, (size_t)k.r->id, (size_t)k.id);
+        c.fail(k.eol ? "eol-unexpected" : "wrong-handler", "%s: unexpected %s through (fn%d, context %u), event id %#zx", op, k.eol ? "end-of-life call" : "invocation", k.fn, k.o->serial,
+               (size_t)k.id);
     }
     for (size_t i = 0; i < exp.size(); i++)
       if (!used[i])
-        c.fail(exp[i].eol ? "eol-missing" : "not-delivered", "%s: registration #%u (%c id %#zx) did not get its %s (%zu calls seen)", op, exp[i].r->serial, exp[i].r->table,
-               (size_t)exp[i].r->id, exp[i].eol ? "end-of-life call" : "event", log.size());
+        c.fail(exp[i].eol ? "eol-missing" : "not-delivered", "%s: registration %s did not get its %s through its own function and context (%zu calls seen)", op, who(exp[i].r).c_str(),
+               exp[i].eol ? "end-of-life call" : "event", log.size());
   }
   // ---- oracle: the table holds exactly the model (public struct command: id, cmd, arg) --------
   void check_table(Table &t, const char *op) {
@@ -188,7 +226,7 @@ struct World {
       VP_CHECK(c, seen.insert(s[i].id).second, "table-state", "%s: %s has two active slots with id %#zx", op, t.name, (size_t)s[i].id);
       const Entry &e = it->second;
       if (e.kind == KHarness)
-        VP_CHECK(c, s[i].arg == e.reg && (void *)s[i].cmd == (void *)h_event, "table-state", "%s: %s slot %zu id %#zx does not hold registration #%u", op, t.name, i,
+        VP_CHECK(c, s[i].arg == e.reg->ctx && (void *)s[i].cmd == (void *)handler_fn(e.reg->fn), "table-state", "%s: %s slot %zu id %#zx does not hold registration #%u", op, t.name, i,
                  (size_t)s[i].id, e.reg->serial);
       else if (e.kind == KHashFwd)
         VP_CHECK(c, (void *)s[i].cmd == (void *)mpt_dispatch_hash && s[i].arg == (void *)d.get(), "table-state", "%s: %s slot %zu id %#zx lost the hash forwarder", op, t.name, i, (size_t)s[i].id);
@@ -253,8 +291,8 @@ struct World {
       if (c.chance(200)) {
         log.clear();
         fb = newreg('F', 0);
-        fb->registered = true;
-        d->set_error(h_event, fb);
+        accept(fb);
+        d->set_error(handler_fn(fb->fn), fb->ctx);
         expect("set_error", {});
         fb_kind = 1;
       }
@@ -270,9 +308,9 @@ struct World {
     fb = 0;
     if (style == 1 || style == 3) {  // like examples/io/dispatch.c: fill in _err
       fb = newreg('F', 0);
-      fb->registered = true;
-      d->_err.cmd = h_event;
-      d->_err.arg = fb;
+      accept(fb);
+      d->_err.cmd = handler_fn(fb->fn);
+      d->_err.arg = fb->ctx;
       fb_kind = 1;
     } else fb_kind = style == 2 ? 2 : 0;
     d_init = true;
@@ -288,13 +326,17 @@ struct World {
     std::vector<Exp> exp;
     if (it != t.live.end()) {
       if (it->second.kind == KHarness) exp.push_back({it->second.reg, true});
+      if (it->second.kind == KHarness && e.reg) {
+        const Reg *o = it->second.reg;
+        c.label(o->ctx != e.reg->ctx ? "replace:other-context" : o->fn != e.reg->fn ? "replace:same-context-other-function" : "replace:same-context-same-function");
+      }
       c.label("replace");
       if (&t == &T[0]) touched = true;
     } else if (hole) {
       c.label("slot-reuse");
       if (&t == &T[0]) touched = true;
     }
-    if (e.reg) e.reg->registered = true;
+    if (e.reg) accept(e.reg);
     expect(op, exp);
     t.live[id] = e;
   }
@@ -308,10 +350,10 @@ struct World {
     note_create(t, true);
     log.clear();
     int ret;
-    if (cxx) ret = (fwd ? d->set_handler(id, (event_handler_t)mpt_dispatch_hash, d.get()) : d->set_handler(id, h_event, r)) ? 0 : -1;
-    else ret = fwd ? mpt_dispatch_set(d, id, (event_handler_t)mpt_dispatch_hash, d.get()) : mpt_dispatch_set(d, id, h_event, r);
+    if (cxx) ret = (fwd ? d->set_handler(id, (event_handler_t)mpt_dispatch_hash, d.get()) : d->set_handler(id, handler_fn(r->fn), r->ctx)) ? 0 : -1;
+    else ret = fwd ? mpt_dispatch_set(d, id, (event_handler_t)mpt_dispatch_hash, d.get()) : mpt_dispatch_set(d, id, handler_fn(r->fn), r->ctx);
     c.logf("mpt_dispatch_set(D, %#zx, %s) = %d  (%s)", (size_t)id, fwd ? "mpt_dispatch_hash" : "handler", ret, was ? "id is registered" : "id is free");
-    if (r) c.logf("  new object #%u", r->serial);
+    if (r) c.logf("  new registration %s", who(r).c_str());
     if (ret >= 0) registered(t, id, Entry{fwd ? KHashFwd : KHarness, r}, hole, "dispatch_set");
     else {
       expect("dispatch_set(refused)", {});
@@ -354,9 +396,9 @@ struct World {
     int ret;
     if (del) ret = mpt_command_set(t.arr, id, 0, 0);
     else if (fwd) ret = mpt_command_set(t.arr, id, (int (*)(void *, void *))mpt_dispatch_hash, d.get());
-    else ret = mpt_command_set(t.arr, id, (int (*)(void *, void *))h_event, r);
+    else ret = mpt_command_set(t.arr, id, handler_raw(r->fn), r->ctx);
     c.logf("mpt_command_set(%s, %#zx, %s) = %d  (%s)", t.name, (size_t)id, del ? "NULL" : fwd ? "mpt_dispatch_hash" : "handler", ret, was ? "id is registered" : "id is free");
-    if (r) c.logf("  new object #%u", r->serial);
+    if (r) c.logf("  new registration %s", who(r).c_str());
     if (del) {
       if (was && ret >= 0) { removed(t, id, "command_set(NULL)"); c.label("command_set:delete"); }
       else { expect("command_set(NULL)", {}); c.label(was ? "command_set:delete-refused" : "command_set:delete-absent"); }
@@ -391,7 +433,7 @@ struct World {
     if (it == t.live.end()) VP_CHECK(c, !cmd, "get-mismatch", "mpt_command_get(%s, %#zx) finds an entry (id %#zx) although the id is not registered", t.name, (size_t)id, (size_t)cmd->id);
     else {
       VP_CHECK(c, cmd && cmd->cmd && cmd->id == id, "get-mismatch", "mpt_command_get(%s, %#zx) does not find the registered entry", t.name, (size_t)id);
-      if (it->second.kind == KHarness) VP_CHECK(c, cmd->arg == it->second.reg, "get-mismatch", "mpt_command_get(%s, %#zx) returns another registration", t.name, (size_t)id);
+      if (it->second.kind == KHarness) VP_CHECK(c, cmd->arg == it->second.reg->ctx && cmd->cmd == handler_raw(it->second.reg->fn), "get-mismatch", "mpt_command_get(%s, %#zx) returns another registration", t.name, (size_t)id);
     }
     c.label(cmd ? "get:found" : "get:absent");
   }
@@ -420,11 +462,11 @@ struct World {
     if ((uint64_t)id == width_limit(width)) c.label("reserve:id==limit");
     if (activate) {  // as mpt_connection_await does
       Reg *r = newreg(t.name[0], id);
-      r->registered = true;
-      cmd->cmd = (int (*)(void *, void *))h_event;
-      cmd->arg = r;
+      accept(r);
+      cmd->cmd = handler_raw(r->fn);
+      cmd->arg = r->ctx;
       t.live[id] = Entry{KHarness, r};
-      c.logf("  activated with object #%u", r->serial);
+      c.logf("  activated as registration %s", who(r).c_str());
     } else t.live[id] = Entry{KLogReply, 0};
     c.label("reserve:ok");
     return id;
@@ -443,8 +485,9 @@ struct World {
     auto it = t.live.find(id);
     VP_CHECK(c, cmd && it != t.live.end(), "get-mismatch", "mpt_command_get(%s, %#zx) does not find the live entry to release", t.name, (size_t)id);
     if (it->second.kind == KHarness) {
-      VP_CHECK(c, cmd->arg == it->second.reg, "get-mismatch", "mpt_command_get(%s, %#zx) returns another registration", t.name, (size_t)id);
-      it->second.reg->dead = it->second.reg->released = true;
+      VP_CHECK(c, cmd->arg == it->second.reg->ctx && cmd->cmd == handler_raw(it->second.reg->fn), "get-mismatch", "mpt_command_get(%s, %#zx) returns another registration", t.name, (size_t)id);
+      it->second.reg->released = true;
+      --it->second.reg->ctx->live[it->second.reg->fn];
     }
     cmd->cmd = 0;
     t.live.erase(it);
@@ -599,8 +642,8 @@ struct World {
   void check_seen(const char *op, uintptr_t id, const message *msg, bool check_msg) {
     for (const Call &k : log) {
       if (k.eol) continue;
-      VP_CHECK(c, k.id == id, "event-id", "%s: handler #%u saw ev->id %#zx, expected %#zx", op, k.r->serial, (size_t)k.id, (size_t)id);
-      if (check_msg) VP_CHECK(c, k.msg == msg, "event-id", "%s: handler #%u saw another message pointer", op, k.r->serial);
+      VP_CHECK(c, k.id == id, "event-id", "%s: handler (fn%d, context %u) saw ev->id %#zx, expected %#zx", op, k.fn, k.o->serial, (size_t)k.id, (size_t)id);
+      if (check_msg) VP_CHECK(c, k.msg == msg, "event-id", "%s: handler (fn%d, context %u) saw another message pointer", op, k.fn, k.o->serial);
     }
   }
   // result of mpt_dispatch_emit after the harness handler returned plan.ret for an event whose id was `id`
@@ -736,7 +779,7 @@ struct World {
       log.clear();
       int ret = mpt_dispatch_emit(d, &ev);
       c.logf("  empty message: mpt_dispatch_emit = %d", ret);
-      for (const Call &k : log) VP_CHECK(c, k.r == fb && !k.eol, "wrong-handler", "emit(empty message): registration #%u invoked", k.r->serial);
+      for (const Call &k : log) VP_CHECK(c, is(k, fb) && !k.eol, "wrong-handler", "emit(empty message): (fn%d, context %u) invoked", k.fn, k.o->serial);
       VP_CHECK(c, log.size() <= 1, "wrong-handler", "emit(empty message): %zu calls", log.size());
       mdef = d->_def;
       c.label("emit:empty-message");
@@ -778,7 +821,7 @@ struct World {
       // the code documents "bad default command" = error and forgets the id; nothing registered may run
       int ret = mpt_dispatch_emit(d, 0);
       c.logf("  stale default; mpt_dispatch_emit(NULL) = %d (%#x), _def %#zx", ret, ret, (size_t)d->_def);
-      for (const Call &k : log) VP_CHECK(c, k.r == fb && !k.eol, "wrong-handler", "emit(default): default id %#zx is not registered but registration #%u (id %#zx) is invoked", (size_t)mdef, k.r->serial, (size_t)k.r->id);
+      for (const Call &k : log) VP_CHECK(c, is(k, fb) && !k.eol, "wrong-handler", "emit(default): default id %#zx is not registered but (fn%d, context %u) is invoked", (size_t)mdef, k.fn, k.o->serial);
       VP_CHECK(c, log.size() <= 1, "wrong-handler", "emit(default, stale): %zu calls", log.size());
       VP_CHECK(c, d->_def == 0 || d->_def == mdef || !log.empty(), "def-bookkeeping", "emit(default, stale %#zx): _def becomes %#zx", (size_t)mdef, (size_t)d->_def);
       mdef = d->_def;
@@ -810,7 +853,7 @@ struct World {
     c.logf("  mpt_dispatch_hash = %d (%#x), ev->id %#zx", ret, ret, (size_t)ev.id);
     if (!text.has_word) {
       // no command word, no id: nothing registered may be invoked
-      for (const Call &k : log) VP_CHECK(c, k.r == fb && !k.eol, "wrong-handler", "hash(no word): registration #%u invoked", k.r->serial);
+      for (const Call &k : log) VP_CHECK(c, is(k, fb) && !k.eol, "wrong-handler", "hash(no word): (fn%d, context %u) invoked", k.fn, k.o->serial);
       VP_CHECK(c, log.size() <= 1, "wrong-handler", "hash(no word): %zu calls", log.size());
       c.label("hash:no-word");
     } else if (want && text.may_refuse() && log.empty()) {
@@ -856,10 +899,10 @@ struct World {
   void op_set_error() {
     Reg *old = fb_kind == 1 ? fb : 0;
     Reg *r = newreg('F', 0);
-    r->registered = true;
     log.clear();
-    d->set_error(h_event, r);
-    c.logf("dispatch::set_error(handler): new fallback object #%u", r->serial);
+    d->set_error(handler_fn(r->fn), r->ctx);
+    accept(r);
+    c.logf("dispatch::set_error(handler): new fallback %s", who(r).c_str());
     std::vector<Exp> exp;
     if (old) exp.push_back({old, true});
     expect("set_error", exp);
@@ -902,35 +945,50 @@ struct World {
   void finish() {
     if (d_init) op_fini();
     teardown_w();
+    // per (function, context): one end-of-life call for every registration of the pair the library ever held
+    // (none for a slot the harness released itself), and no registration of it left behind
+    std::map<std::pair<Hctx *, int>, int> want;
     for (auto &p : regs) {
       Reg *r = p.get();
-      int want = r->registered && !r->released ? 1 : 0;
-      VP_CHECK(c, r->eol == want, r->eol < want ? "eol-missing" : "eol-twice", "end of case: object #%u (%c id %#zx) got %d end-of-life calls, expected %d", r->serial, r->table, (size_t)r->id, r->eol, want);
+      want[{r->ctx, r->fn}] += r->registered && !r->released ? 1 : 0;
     }
+    for (auto &p : ctxs)
+      for (int f = 0; f < NFn; f++) {
+        int w = want.count({p.get(), f}) ? want[{p.get(), f}] : 0;
+        VP_CHECK(c, p->eol[f] == w, p->eol[f] < w ? "eol-missing" : "eol-twice", "end of case: (fn%d, %scontext %u) got %d end-of-life calls, %d registrations of the pair ended", f,
+                 p->pooled ? "shared " : "", p->serial, p->eol[f], w);
+      }
   }
 };
 
-static int h_event(void *arg, event *ev) {
+static int h_common(int fn, void *arg, event *ev) {
   World *w = g_w;
-  Reg *r = static_cast<Reg *>(arg);
+  Hctx *o = static_cast<Hctx *>(arg);
   if (!w) return 0;
   Call k;
-  k.r = r;
+  k.o = o;
+  k.fn = fn;
   k.eol = !ev;
-  k.after_death = r->dead;
+  k.after_death = o->live[fn] <= 0;
   k.id = ev ? ev->id : 0;
   k.ev = ev;
   k.msg = ev ? ev->msg : 0;
   k.reply = ev ? ev->reply : 0;
   w->log.push_back(k);
   if (!ev) {
-    ++r->eol;
-    r->dead = true;
+    ++o->eol[fn];
+    if (o->live[fn] > 0) --o->live[fn];
     return 0;
   }
-  ++r->calls;
+  ++o->calls[fn];
   if (w->plan.rewrite) ev->id = w->plan.newid;
   return w->plan.ret;
+}
+// three distinct handler functions (distinct addresses; the library must finalise through the one that was registered)
+template <int K> static int h_fn(void *arg, event *ev) { return h_common(K, arg, ev); }
+static event_handler_t handler_fn(int fn) {
+  static const event_handler_t f[NFn] = {h_fn<0>, h_fn<1>, h_fn<2>};
+  return f[fn];
 }
 
 static void run(Ctx &c) {
